@@ -29,7 +29,7 @@ def run(m, chk):
     ents = entries(m.prog)
     from .extra import int_matrix, int_ratio
 
-    int_matrix(r, chk, ["curves.BaseCurve.__add__", "heavy.Operations.matrix_transformation"], floor=3)
+    int_matrix(r, chk, ["curves.BaseCurve.__add__", "heavy.Operations.matrix_transformation"], floor=1)
 
     int_ratio(r, chk)
     nsink = e8_sinks(chk, AX, ents)
